@@ -55,7 +55,7 @@ func init() {
 	exact["(github.com/ethereum/go-ethereum/common.Hash).Hex"] = opaqueString("hash.Hex")
 	exact["(github.com/ethereum/go-ethereum/common.Hash).String"] = opaqueString("hash.String")
 
-	api := "github.com/alephium/wormhole-fork/node/pkg/zzverif."
+	api := "zzverif."
 	exact[api+"TempDir"] = opaqueString("tmpdir")
 	exact[api+"Symbolic"] = func(e *Engine, st *State, fn *ssa.Function, args []Value, retTo *ssa.Call) (Value, bool) {
 		return True, true
